@@ -311,6 +311,48 @@ def order_error(code):
         return False
 
 
+def do_commas(code, opts):
+    """ArgumentFormatter's comma handling, observed per ArgumentNode: the state after TrimWhitespaces
+    (number of arguments and commas, is_multiline, call or literal, trivia on the last comma) and the
+    number of commas after ArgumentFormatter.visit_ArgumentNode"""
+    from mesonbuild.ast.visitor import AstVisitor
+    from mesonbuild.ast.postprocess import AstConditionLevel
+
+    class V(AstVisitor):
+        def __init__(self):
+            self.found = []
+
+        def visit_FunctionNode(self, n):
+            self.found.append((n.args, True)); super().visit_FunctionNode(n)
+
+        def visit_MethodNode(self, n):
+            self.found.append((n.args, True)); super().visit_MethodNode(n)
+
+        def visit_ArrayNode(self, n):
+            self.found.append((n.args, False)); super().visit_ArrayNode(n)
+
+        def visit_DictNode(self, n):
+            self.found.append((n.args, False)); super().visit_DictNode(n)
+    try:
+        cfg = mk_config(opts)
+        with quiet():
+            ast = mp.Parser(code, 'f').parse()
+            ast.accept(AstConditionLevel())
+            ast.accept(mformat.TrimWhitespaces(cfg))
+            v = V()
+            ast.accept(v)
+            pre = [(len(a.arguments) + len(a.kwargs), len(a.commas), bool(a.is_multiline), fn,
+                    bool(a.commas and a.commas[-1].whitespaces and a.commas[-1].whitespaces.value)) for a, fn in v.found]
+            ast.accept(mformat.ArgumentFormatter(cfg))
+        return [list(p) + [len(a.commas)] for p, (a, fn) in zip(pre, v.found)]
+    except RecursionError:
+        return []
+    except MesonException:
+        return []
+    except Exception as e:
+        return [['EXC:' + type(e).__name__]]
+
+
 def main():
     req = json.load(sys.stdin)
     out = {}
@@ -334,6 +376,8 @@ def main():
         out['results'] = rs
     if 'format' in req:
         out['format'] = [do_format(code, opts) for code, opts in req['format']]
+    if 'commas' in req:
+        out['commas'] = [do_commas(code, opts) for code, opts in req['commas']]
     if 'ablate' in req:
         out['ablate'] = [do_ablate(code) for code in req['ablate']]
     if 'order_error' in req:
